@@ -8,30 +8,55 @@ and compares the outcome with vlib/ref/xfr_model.py (an RFC 1995/5936 stream int
 that reads the SAME wire through the independent walker of vlib/ref/wire.py).  Then every
 single fault (kind x position) of the base stream is applied and checked the same way.
 
+Parts: `transfer` (the above; base streams also go through the real dns.query._inbound_xfr
+over a scripted socket), `signed` (base streams, TSIG-signed per a generated sign mask,
+through the real _inbound_xfr), `query` (make_query / extract_serial_from_query / Inbound
+argument checks).
+
+Replaying one fault: put "faults": [[kind, position, variant]] into the descriptor (the
+violation message and `detail` name the triple); run() then applies only those.
+
 SCOPING (decisions taken while building; each narrows the check, never the property)
   * The model decides accept/reject from the RFC grammar; where RFC text and documentation
     leave the verdict open it follows the documented transaction semantics and the decision is
     counted in evidence as model_lenient:<kind> (list and rationale: vlib/ref/xfr_model.py).
-  * "Reject => the driver raised" does not compare the *kind* of error with the model's
-    reason (the statement only says "raises an error"); the exception must be a
-    dns.exception.DNSException, EOFError (end of input, raised by the driver as
-    _inbound_xfr's socket read does) or ValueError (documented by Transaction.add for a
-    non-origin SOA / wrong class).  Anything else is a `crash` violation.
+  * "Reject => the driver raised": the exception must be a dns.exception.DNSException,
+    EOFError (end of input, raised by the driver as _inbound_xfr's socket read does) or
+    ValueError (documented by Transaction.add for a non-origin SOA / wrong class); anything
+    else is a `crash` violation.  The *kind* of error is compared with the model's reason only
+    for the three documented classes callers act on (TransferError + its rcode,
+    SerialWentBackwards, UseTCP -- inbound_xfr falls back to TCP on the latter), both ways.
+  * A UDP IXFR is one datagram: process_message() returning False for it (the real driver would
+    wait for a second datagram until its timeout) is a violation (`udp-not-done`); xfr.py
+    documents that case as FormError("unexpected end of UDP IXFR").
   * "gained exactly one version": versioned zones are created with set_max_versions(None)
     so that the version list is observable; the default policy prunes to one version.
   * The "already up to date" answer commits nothing (no new version); the model reports it as
     Accept(changed=False).
   * Messages after the one that completes the transfer are never read by _inbound_xfr, so
     "surplus RRs in the NEXT message" is an accepted stream (statement: "in the same message").
+  * After every transfer attempt a versioned zone must not be left with an open write
+    transaction (`txn-leak`; observed through the private _write_txn attribute because asking
+    for a writer would block for ever): a zone that can no longer be written is not "as it was".
+  * No model-vs-implementation disagreement remained on the unchanged tree apart from D12/D12b;
+    the model was written from the RFC grammar first and needed no correction afterwards.
   * D12 (final SOA commits inside process_message; RRs after it in the same message then raise
     FormError although the transfer was applied) is excluded BY CONSTRUCTION while
     EXCLUDE_D12 is True: every stream for which the model answers Reject(surplus) after a
     complete, zone-changing transfer is skipped and counted as excluded:D12 (that is the
-    fault kind surplus_same plus those dup/swap/movefinal/... positions that produce the same
-    situation).  Flip the flag after /repo is fixed: the streams are then driven and must
+    fault kind surplus_same plus those dup/swap/movefinal/owner/... positions that produce the
+    same situation).  Flip the flag after /repo is fixed: the streams are then driven and must
     raise with the zone untouched.
+  * D12b (found while building, same family, in dns/query.py and dns/asyncquery.py): the
+    "missing TSIG" check of _inbound_xfr sits after the `with dns.xfr.Inbound(...)` block, so a
+    transfer whose last message is unsigned is committed and then FormError("missing TSIG") is
+    raised.  Excluded by construction while EXCLUDE_D12B is True (part `signed`: sign masks
+    with an unsigned last message on a stream that completes and changes the zone are skipped
+    and counted as excluded:D12b).  The first message is always signed in the generated masks
+    (what an unsigned FIRST message means is TSIG semantics, i.e. C14).
 """
 
+import socket
 import struct
 
 from hypothesis import strategies as st
@@ -74,12 +99,17 @@ ASSUMPTIONS = [
     "through vlib/ref/wire.py, not through dnspython",
     "messages are parsed with exactly the arguments of dns.query._inbound_xfr and the driver loop "
     "is a replica of that function (sockets replaced by a list of wires; end of list = EOFError)",
-    "TSIG-signed transfers are out of scope here (C14); keyring is only checked for passthrough "
-    "in make_query",
-    "D12 excluded by construction while EXCLUDE_D12 is True (counted as excluded:D12)",
+    "base streams are additionally driven through the real dns.query._inbound_xfr over a scripted "
+    "socket object (part `transfer`) and, TSIG-signed with a generated per-message sign mask and a "
+    "pinned clock, in part `signed`; MAC correctness itself is C14's business",
+    "D12 / D12b excluded by construction while EXCLUDE_D12 / EXCLUDE_D12B are True (counted as "
+    "excluded:D12, excluded:D12b)",
 ]
 
 EXCLUDE_D12 = True
+# D12b: dns.query._inbound_xfr raises FormError("missing TSIG") after the `with Inbound` block,
+# i.e. after the zone was committed, when the last message of a TSIG transfer is unsigned
+EXCLUDE_D12B = True
 
 QID = 0x1234
 T_SOA, T_A, T_NS, T_CNAME, T_RRSIG = 6, 1, 2, 5, 46
@@ -710,198 +740,407 @@ def _describe_fault(fault):
     return "base stream" if fault is None else f"fault {list(fault)}"
 
 
+class _FromFake(Exception):
+    """marker mixin: raised by a scripted socket, not by harness logic"""
+
+
+class _FakeStream:
+    """scripted TCP peer for the real dns.query._inbound_xfr: the answer is produced when the
+    client starts reading, from the query it actually sent"""
+
+    def __init__(self, make_wires):
+        self.make_wires = make_wires
+        self.sent = bytearray()
+        self.data = None
+
+    def send(self, data):
+        self.sent += data
+        return len(data)
+
+    def recv(self, n):
+        if self.data is None:
+            wires = self.make_wires(bytes(self.sent[2:]))
+            self.data = b"".join(struct.pack("!H", len(w)) + w for w in wires)
+        out = self.data[:n]
+        self.data = self.data[n:]
+        return out  # b"" at the end: _net_read raises EOFError
+
+    def close(self):
+        pass
+
+
+class _FakeDgram(socket.socket):
+    """scripted UDP peer (a real, unconnected datagram socket object: _inbound_xfr decides
+    "UDP" with isinstance(s, socket.socket) and s.type)"""
+
+    def __init__(self, make_wires):
+        super().__init__(socket.AF_UNIX, socket.SOCK_DGRAM)
+        self._make_wires = make_wires
+        self._sent = b""
+        self._wires = None
+
+    def send(self, data, *a):
+        self._sent = bytes(data)
+        return len(data)
+
+    def recvfrom(self, n, *a):
+        import dns.exception
+
+        if self._wires is None:
+            self._wires = list(self._make_wires(self._sent))
+        if not self._wires:
+            # nothing more will arrive: the real socket would run into its timeout
+            class _Timeout(dns.exception.Timeout, _FromFake):
+                pass
+
+            raise _Timeout()
+        return self._wires.pop(0), None
+
+
+def _drive_real(zone, query, serial, is_udp, make_wires):
+    """the real dns.query._inbound_xfr over a scripted socket -> (exception or None, messages)"""
+    import dns.query
+
+    sock = _FakeDgram(make_wires) if is_udp else _FakeStream(make_wires)
+    n = 0
+    try:
+        for _ in dns.query._inbound_xfr(zone, sock, query, serial, None, None):
+            n += 1
+    except Violation:
+        raise
+    except Exception as e:  # noqa - classified by the caller
+        if not (last_frame_in_dns(e) or isinstance(e, _FromFake)):
+            raise
+        return e, n
+    finally:
+        sock.close()
+    return None, n
+
+
+class _FixedClock:
+    @staticmethod
+    def time():
+        return 1700000000.0
+
+
+class _pinned_time:
+    """TSIG signing/validation reads the clock: pin it (harness-side substitution)"""
+
+    def __enter__(self):
+        import dns.message
+        import dns.renderer
+
+        self.saved = (dns.message.time, dns.renderer.time)
+        dns.message.time = dns.renderer.time = _FixedClock
+        return self
+
+    def __exit__(self, *a):
+        import dns.message
+        import dns.renderer
+
+        dns.message.time, dns.renderer.time = self.saved
+        return False
+
+
 # ---------------------------------------------------------------------------
 # the oracle
 
 
-def run(case):
-    import dns.exception
-    import dns.flags
-    import dns.message
-    import dns.rdatatype
-    import dns.xfr
+class _Prep:
+    """everything run() and run_signed() share: versions, base stream, zone flavours"""
 
-    origin, names, vers = _versions(case)
-    style = case["style"]
-    qkind, is_udp, ci, ti, rrs = _base_stream(case, origin, names, vers)
-    rrs = _with_oob(case, rrs, qkind, style)
-    upper = bool(case.get("upper"))
-    if upper:
-        rrs = [(_upper(rr[0]),) + rr[1:] for rr in rrs]
-    base = _mk_msgs(_cut(case, rrs, is_udp), case.get("qmode", 0))
-    ctx = _Ctx(origin)
-    okey = W.name_key(origin)
-    qtype = M.IXFR if qkind == "IXFR" else M.AXFR
-    client_content = None if ci is None else _content(vers[ci], origin, names)
-    client_serial = None if ci is None else vers[ci].serial
-    target_content = _content(vers[ti], origin, names)
-    valid = style in VALID_STYLES
-    classes = [f"style:{style}"]
-    nadd = sum(1 for rr in rrs if rr[4] == "add")
-    ndel = sum(1 for rr in rrs if rr[4] == "del")
-    multi = len(base) >= 2
-    if multi:
-        classes.append("multi_message")
-    if case.get("cutmode") == "all" and not is_udp:
-        classes.append("cut_after_every_rr")
-    if any(rr[4] == "oob" for rr in rrs):
-        classes.append("out_of_zone_rr")
-    if upper:
-        classes.append("case_variant_spelling")
-    if ci is not None:
-        a, b = vers[ci].serial, vers[-1].serial
-        if b < a:
-            classes.append("wrap:2^32")
-        if (a < 0x80000000) != (b < 0x80000000) and b > a:
-            classes.append("wrap:2^31")
-    if any(v.sets != w.sets and {k: x[1] for k, x in v.sets.items()} == {k: x[1] for k, x in w.sets.items()}
-           for v, w in zip(vers, vers[1:])):
-        classes.append("ttl_only_step")
-    if any(set(k[0] for k in v.sets) - set(k[0] for k in w.sets) for v, w in zip(vers, vers[1:])):
-        classes.append("name_removed_step")
-    if any(set(k[0] for k in w.sets) - set(k[0] for k in v.sets) for v, w in zip(vers, vers[1:])):
-        classes.append("name_added_step")
-    if any([x for k, x in v.sets.items() if k[0] == 0] != [x for k, x in w.sets.items() if k[0] == 0]
-           for v, w in zip(vers, vers[1:])):
-        classes.append("apex_changed_step")
+    def __init__(self, case, key=None):
+        import dns.flags
+        import dns.message
+        import dns.rdatatype
+        import dns.xfr
 
-    # the fault list
-    if not valid:
-        faults = []
-    elif case.get("faults") is not None:
-        faults = [tuple(f) for f in case["faults"]]
-    else:
-        faults = enumerate_faults(base)
+        self.case = case
+        origin, names, vers = _versions(case)
+        self.origin, self.names, self.vers = origin, names, vers
+        self.style = style = case["style"]
+        self.qkind, self.is_udp, self.ci, self.ti, rrs = _base_stream(case, origin, names, vers)
+        rrs = _with_oob(case, rrs, self.qkind, style)
+        self.upper = bool(case.get("upper"))
+        if self.upper:
+            rrs = [(_upper(rr[0]),) + rr[1:] for rr in rrs]
+        self.rrs = rrs
+        self.base = _mk_msgs(_cut(case, rrs, self.is_udp), case.get("qmode", 0))
+        self.ctx = _Ctx(origin)
+        self.okey = W.name_key(origin)
+        self.qtype = M.IXFR if self.qkind == "IXFR" else M.AXFR
+        ci, ti = self.ci, self.ti
+        self.client_content = None if ci is None else _content(vers[ci], origin, names)
+        self.client_serial = None if ci is None else vers[ci].serial
+        self.target_content = _content(vers[ti], origin, names)
+        self.target_serial = vers[ti].serial
+        self.valid = style in VALID_STYLES
+        self.classes = classes = [f"style:{style}"]
+        self.nadd = sum(1 for rr in rrs if rr[4] == "add")
+        self.ndel = sum(1 for rr in rrs if rr[4] == "del")
+        self.multi = len(self.base) >= 2
+        if self.multi:
+            classes.append("multi_message")
+        if case.get("cutmode") == "all" and not self.is_udp:
+            classes.append("cut_after_every_rr")
+        if any(rr[4] == "oob" for rr in rrs):
+            classes.append("out_of_zone_rr")
+        if self.upper:
+            classes.append("case_variant_spelling")
+        if ci is not None:
+            a, b = vers[ci].serial, vers[-1].serial
+            if b < a:
+                classes.append("wrap:2^32")
+            if (a < 0x80000000) != (b < 0x80000000) and b > a:
+                classes.append("wrap:2^31")
+        steps = list(zip(vers, vers[1:]))
+        if any(v.sets != w.sets and {k: x[1] for k, x in v.sets.items()} == {k: x[1] for k, x in w.sets.items()} for v, w in steps):
+            classes.append("ttl_only_step")
+        if any(set(k[0] for k in v.sets) - set(k[0] for k in w.sets) for v, w in steps):
+            classes.append("name_removed_step")
+        if any(set(k[0] for k in w.sets) - set(k[0] for k in v.sets) for v, w in steps):
+            classes.append("name_added_step")
+        if any([x for k, x in v.sets.items() if k[0] == 0] != [x for k, x in w.sets.items() if k[0] == 0] for v, w in steps):
+            classes.append("apex_changed_step")
 
-    # per zone flavour: the query, as dns.query.inbound_xfr makes it
-    flavours = []
-    for kind, relativize in case["zones"]:
-        items = None if ci is None else _zone_items(ctx, vers[ci], names, relativize)
-        zone = _build_zone(ctx, kind, relativize, items)
-        if qkind == "IXFR" or ci is None:
-            q, s = dns.xfr.make_query(zone)
-        else:
-            q, s = dns.xfr.make_query(zone, serial=None)
-        want_t = dns.rdatatype.IXFR if qkind == "IXFR" else dns.rdatatype.AXFR
-        if q.question[0].rdtype != want_t or q.question[0].name != ctx.origin_name:
-            raise Violation("make_query", f"make_query chose {q.question[0]} for a zone holding serial {client_serial}, style {style}", "qtype")
-        if s != (client_serial if qkind == "IXFR" else None) or dns.xfr.extract_serial_from_query(q) != s:
-            raise Violation("make_query", f"make_query/extract_serial gave {s} for client serial {client_serial}", "serial")
-        q.id = QID
-        flags = dns.message.make_response(q).flags | dns.flags.AA
-        got = ZU.extract(zone)
-        if got != (client_content or {}):
-            raise AssertionError(f"harness: client zone differs from its model: {ZU.diff(got, client_content or {})}")
-        flavours.append((kind, relativize, items, q, s, want_t, flags))
-        classes.append(f"zone:{kind}:{'rel' if relativize else 'abs'}")
+        # per zone flavour: the query, as dns.query.inbound_xfr makes it
+        self.flavours = []
+        kw = {} if key is None else {"keyring": key}
+        for kind, relativize in case["zones"]:
+            items = None if ci is None else _zone_items(self.ctx, vers[ci], names, relativize)
+            zone = _build_zone(self.ctx, kind, relativize, items)
+            if self.qkind == "IXFR" or ci is None:
+                q, s = dns.xfr.make_query(zone, **kw)
+            else:
+                q, s = dns.xfr.make_query(zone, serial=None, **kw)
+            want_t = dns.rdatatype.IXFR if self.qkind == "IXFR" else dns.rdatatype.AXFR
+            if q.question[0].rdtype != want_t or q.question[0].name != self.ctx.origin_name:
+                raise Violation("make_query", f"make_query chose {q.question[0]} for a zone holding serial {self.client_serial}, style {style}", "qtype")
+            if s != (self.client_serial if self.qkind == "IXFR" else None) or dns.xfr.extract_serial_from_query(q) != s:
+                raise Violation("make_query", f"make_query/extract_serial gave {s} for client serial {self.client_serial}", "serial")
+            q.id = QID
+            got = ZU.extract(zone)
+            if got != (self.client_content or {}):
+                raise AssertionError(f"harness: client zone differs from its model: {ZU.diff(got, self.client_content or {})}")
+            self.flavours.append((kind, relativize, items, q, s, want_t))
+            classes.append(f"zone:{kind}:{'rel' if relativize else 'abs'}")
+        # header of every response message: what make_response() gives for the query, plus AA
+        self.flags = int(dns.message.make_response(self.flavours[0][3]).flags | dns.flags.AA)
 
-    documented = (
-        ("rcode", dns.xfr.TransferError),
-        ("backwards", dns.xfr.SerialWentBackwards),
-        ("use_tcp", dns.xfr.UseTCP),
-    )
-
-    def check_stream(msgs, fault):
-        flags = flavours[0][6]
-        wires = [_render(ctx, m, qtype, flags, upper) for m in msgs]
-        mm = [_model_msg(ctx, w) for w in wires]
+    def verdict_for(self, msgs, fault):
+        """render, read back through the independent walker, ask the model"""
+        P = self
+        wires = [_render(P.ctx, m, P.qtype, P.flags, P.upper) for m in msgs]
+        mm = [_model_msg(P.ctx, w) for w in wires]
         if fault is None:
             want = [(W.name_key(rr[0]), rr[1], rr[2], C.canonical_rdata(rr[1], rr[3])) for m in msgs for rr in m["rrs"]]
             have = [(rr.owner, rr.rdtype, rr.ttl, rr.rdata) for m in mm for rr in m.rrs]
             if want != have or [len(m["rrs"]) for m in msgs] != [len(m.rrs) for m in mm]:
                 raise AssertionError("harness: rendered wire does not carry the intended RR stream")
-        verdict = M.interpret(okey, client_content, client_serial, qtype, is_udp, mm)
+        verdict = M.interpret(P.okey, P.client_content, P.client_serial, P.qtype, P.is_udp, mm)
+        if fault is None:
+            if P.valid and not (verdict.ok and verdict.content == P.target_content and verdict.serial == P.target_serial):
+                raise AssertionError(f"harness: model does not accept the valid base stream: {verdict!r}")
+            if not P.valid and verdict.ok:
+                raise AssertionError(f"harness: model accepts the invalid base stream of style {P.style}")
+        return wires, mm, verdict
+
+
+_DOCUMENTED = (("rcode", "TransferError"), ("backwards", "SerialWentBackwards"), ("use_tcp", "UseTCP"))
+
+
+def _judge(P, verdict, fault, flavour, zone, before, vbefore, exc, consumed, results, mm, driver):
+    """oracles 1-3 for one driven transfer.  results is None for the real driver (it does not
+    expose process_message's return values)"""
+    import dns.exception
+    import dns.xfr
+
+    kind, relativize = flavour[0], flavour[1]
+    after = ZU.extract(zone)
+    vafter = _version_ids(zone)
+    where = f"{_describe_fault(fault)}, zone {kind}/{'relativized' if relativize else 'absolute'}, style {P.style}{driver}"
+    detail = {"fault": None if fault is None else list(fault), "zone": [kind, relativize], "model": repr(verdict)}
+    if getattr(zone, "_write_txn", None) is not None:
+        raise Violation("txn-leak", f"{where}: the write transaction is still open after the transfer ended ({exc!r})", "write_txn", detail)
+    if P.is_udp and results and not results[0]:
+        raise Violation("udp-not-done", f"{where}: process_message() returned False for a UDP IXFR datagram: the client would wait for a second datagram", "udp", detail)
+    if exc is not None:
+        ek = exc_key(exc) if last_frame_in_dns(exc) else f"{type(exc).__name__}@driver"
+        # (2) atomicity, unconditional
+        if after != before:
+            raise Violation(
+                "atomicity",
+                f"{where}: {type(exc).__name__}({exc}) was raised but the zone changed: {ZU.diff(before, after)}",
+                ek, detail,
+            )
+        if vafter != vbefore:
+            raise Violation("atomicity", f"{where}: {type(exc).__name__}({exc}) was raised but the version list changed {vbefore} -> {vafter}", ek + ":versions", detail)
+        if not isinstance(exc, (dns.exception.DNSException, EOFError, ValueError)):
+            raise Violation("crash", f"{where}: foreign exception {type(exc).__name__}: {exc}", ek, detail)
+        if verdict.ok:
+            clause = "valid-stream" if fault is None else "spurious-reject"
+            raise Violation(clause, f"{where}: the reference accepts this stream ({verdict!r}) but the transfer raised {type(exc).__name__}({exc})", ek, detail)
+        # the three documented error classes carry a meaning callers act on (inbound_xfr
+        # retries over TCP on UseTCP): they must match the reason, both ways
+        for reason, cname in _DOCUMENTED:
+            if (verdict.reason == reason) != isinstance(exc, getattr(dns.xfr, cname)):
+                raise Violation(
+                    "error-kind",
+                    f"{where}: the reference says {verdict!r}, the transfer raised {type(exc).__name__}({exc})",
+                    f"{reason}:{type(exc).__name__}", detail,
+                )
+        if verdict.reason == "rcode" and exc.rcode != [m.rcode for m in mm if m.rcode][0]:
+            raise Violation("error-kind", f"{where}: TransferError.rcode is {exc.rcode}", "rcode-value", detail)
+        return
+    # no exception
+    if not verdict.ok:
+        changed = "zone changed: " + "; ".join(ZU.diff(before, after)) if after != before else "zone unchanged"
+        raise Violation(
+            "missed-reject",
+            f"{where}: the reference rejects this stream ({verdict!r}) but the transfer completed without error ({changed})",
+            verdict.reason, detail,
+        )
+    if after != verdict.content:
+        raise Violation("content", f"{where}: zone after the transfer differs from the reference: {ZU.diff(after, verdict.content)}", "content", detail)
+    got_serial = _soa_serial(zone, relativize, P.ctx.origin_name)
+    if got_serial != verdict.serial:
+        raise Violation("content", f"{where}: SOA serial {got_serial}, reference {verdict.serial}", "serial", detail)
+    if consumed != verdict.final_msg + 1 or (results is not None and results != [False] * (consumed - 1) + [True]):
+        raise Violation("done-flag", f"{where}: done after {consumed} message(s) {results}, the final SOA is in message {verdict.final_msg}", "done-at", detail)
+    if vbefore is not None:
+        if verdict.changed:
+            ok = len(vafter) == len(vbefore) + 1 and vafter[:-1] == vbefore and vafter[-1][0] == vbefore[-1][0] + 1
+        else:
+            ok = vafter == vbefore
+        if not ok:
+            raise Violation("versions", f"{where}: version list {vbefore} -> {vafter} (changed={verdict.changed})", "versions", detail)
+
+
+def run(case):
+    P = _Prep(case)
+    classes = P.classes
+    if not P.valid:
+        faults = []
+    elif case.get("faults") is not None:
+        faults = [tuple(f) for f in case["faults"]]
+    else:
+        faults = enumerate_faults(P.base)
+
+    def check_stream(msgs, fault):
+        wires, mm, verdict = P.verdict_for(msgs, fault)
         for l in verdict.lenient:
             classes.append(f"model_lenient:{l}")
-        if fault is None:
-            if valid and not (verdict.ok and verdict.content == target_content and verdict.serial == vers[ti].serial):
-                raise AssertionError(f"harness: model does not accept the valid base stream: {verdict!r}")
-            if not valid and verdict.ok:
-                raise AssertionError(f"harness: model accepts the invalid base stream of style {style}")
-        else:
+        if fault is not None:
             classes.append(f"fault:{fault[0]}")
         if not verdict.ok and verdict.reason == "surplus" and verdict.after_complete_transfer and EXCLUDE_D12:
             classes.append("excluded:D12")
-            return verdict
+            return
         if verdict.ok:
             classes.append("verdict:accept" if fault is None else "verdict:accept-after-fault")
         else:
             classes.append(f"verdict:reject:{verdict.reason}")
-        for kind, relativize, items, q, s, want_t, _flags in flavours:
-            zone = _build_zone(ctx, kind, relativize, items)
+        for flavour in P.flavours:
+            kind, relativize, items, q, s, want_t = flavour
+            zone = _build_zone(P.ctx, kind, relativize, items)
             before = ZU.extract(zone)
             vbefore = _version_ids(zone)
-            exc, consumed, results = _drive(zone, want_t, s, is_udp, wires, q)
-            after = ZU.extract(zone)
-            vafter = _version_ids(zone)
-            where = f"{_describe_fault(fault)}, zone {kind}/{'relativized' if relativize else 'absolute'}, style {style}"
-            detail = {"fault": None if fault is None else list(fault), "zone": [kind, relativize], "model": repr(verdict)}
-            if getattr(zone, "_write_txn", None) is not None:
-                raise Violation("txn-leak", f"{where}: the write transaction is still open after the transfer ended ({exc!r})", "write_txn", detail)
-            if is_udp and results and not results[0]:
-                raise Violation("udp-not-done", f"{where}: process_message() returned False for a UDP IXFR datagram: the client would wait for a second datagram", "udp", detail)
-            if exc is not None:
-                ek = exc_key(exc) if not isinstance(exc, EOFError) else "EOFError@driver"
-                # (2) atomicity, unconditional
-                if after != before:
-                    raise Violation(
-                        "atomicity",
-                        f"{where}: {type(exc).__name__}({exc}) was raised but the zone changed: {ZU.diff(before, after)}",
-                        ek, detail,
-                    )
-                if vafter != vbefore:
-                    raise Violation("atomicity", f"{where}: {type(exc).__name__}({exc}) was raised but the version list changed {vbefore} -> {vafter}", ek + ":versions", detail)
-                if not isinstance(exc, (dns.exception.DNSException, EOFError, ValueError)):
-                    raise Violation("crash", f"{where}: foreign exception {type(exc).__name__}: {exc}", ek, detail)
-                if verdict.ok:
-                    clause = "valid-stream" if fault is None else "spurious-reject"
-                    raise Violation(clause, f"{where}: the reference accepts this stream ({verdict!r}) but the transfer raised {type(exc).__name__}({exc})", ek, detail)
-                # the three documented error classes carry a meaning callers act on
-                # (inbound_xfr retries over TCP on UseTCP): they must match the reason, both ways
-                for reason, cls in documented:
-                    if (verdict.reason == reason) != isinstance(exc, cls):
-                        raise Violation(
-                            "error-kind",
-                            f"{where}: the reference says {verdict!r}, the transfer raised {type(exc).__name__}({exc})",
-                            f"{reason}:{type(exc).__name__}", detail,
-                        )
-                if verdict.reason == "rcode" and exc.rcode != [m.rcode for m in mm if m.rcode][0]:
-                    raise Violation("error-kind", f"{where}: TransferError.rcode is {exc.rcode}", "rcode-value", detail)
-                continue
-            # no exception
-            if not verdict.ok:
-                changed = "zone changed: " + "; ".join(ZU.diff(before, after)) if after != before else "zone unchanged"
-                raise Violation(
-                    "missed-reject",
-                    f"{where}: the reference rejects this stream ({verdict!r}) but the transfer completed without error ({changed})",
-                    verdict.reason, detail,
-                )
-            if after != verdict.content:
-                raise Violation("content", f"{where}: zone after the transfer differs from the reference: {ZU.diff(after, verdict.content)}", "content", detail)
-            got_serial = _soa_serial(zone, relativize, ctx.origin_name)
-            if got_serial != verdict.serial:
-                raise Violation("content", f"{where}: SOA serial {got_serial}, reference {verdict.serial}", "serial", detail)
-            if consumed != verdict.final_msg + 1 or results != [False] * (consumed - 1) + [True]:
-                raise Violation("done-flag", f"{where}: done after {consumed} message(s) {results}, the final SOA is in message {verdict.final_msg}", "done-at", detail)
-            if vbefore is not None:
-                if verdict.changed:
-                    ok = len(vafter) == len(vbefore) + 1 and vafter[:-1] == vbefore and vafter[-1][0] == vbefore[-1][0] + 1
-                else:
-                    ok = vafter == vbefore
-                if not ok:
-                    raise Violation("versions", f"{where}: version list {vbefore} -> {vafter} (changed={verdict.changed})", "versions", detail)
-        return verdict
+            exc, consumed, results = _drive(zone, want_t, s, P.is_udp, wires, q)
+            _judge(P, verdict, fault, flavour, zone, before, vbefore, exc, consumed, results, mm, "")
+            if fault is None:
+                # the same stream through the real dns.query._inbound_xfr (scripted socket)
+                zone = _build_zone(P.ctx, kind, relativize, items)
+                vbefore = _version_ids(zone)
+                exc, consumed = _drive_real(zone, q, s, P.is_udp, lambda _qwire: wires)
+                _judge(P, verdict, fault, flavour, zone, before, vbefore, exc, consumed, None, mm, " (real _inbound_xfr)")
+                classes.append("real_driver")
 
-    check_stream(base, None)
+    check_stream(P.base, None)
     for fault in faults:
-        msgs = apply_fault(base, fault, origin)
+        msgs = apply_fault(P.base, fault, P.origin)
         if msgs is None:
             classes.append("fault-not-applicable")
             continue
         check_stream(msgs, fault)
 
-    nontrivial = valid and multi and nadd >= 1 and ndel >= 1
+    nontrivial = P.valid and P.multi and P.nadd >= 1 and P.ndel >= 1
     return {"nontrivial": nontrivial, "classes": classes}
+
+
+# ---------------------------------------------------------------------------
+# TSIG-signed transfers through the real dns.query._inbound_xfr: the "missing TSIG" verdict
+# comes after the loop, so oracle 2 (atomicity) has to be asked there as well
+
+
+def run_signed(case):
+    import dns.message
+    import dns.name
+    import dns.renderer
+    import dns.tsig
+
+    key = dns.tsig.Key(dns.name.from_text("xfr-key.test."), b"0123456789abcdef0123456789abcdef", dns.tsig.HMAC_SHA256)
+    with _pinned_time():
+        P = _Prep(case, key)
+        classes = P.classes
+        wires, mm, verdict = P.verdict_for(P.base, None)
+        n = len(P.base)
+        mid = case["sign_mid"]
+        mask = [True] + [bool(mid[i % len(mid)]) for i in range(1, n)]
+        if n > 1:
+            mask[-1] = bool(case["sign_last"])
+        elif not case["sign_last"]:
+            mask[0] = False
+        last_signed = mask[-1]
+        if not all(mask[1:-1]):
+            classes.append("unsigned_middle")
+        classes.append("last_signed" if last_signed else "last_unsigned")
+
+        def make_wires(qwire):
+            request_mac = dns.message.from_wire(qwire, keyring=key).mac
+            out = []
+            tctx = None
+            for m, sign in zip(P.base, mask):
+                r = dns.renderer.Renderer(id=QID, flags=P.flags)
+                if m["q"] is not None:
+                    r.add_question(P.ctx.name(_upper(P.origin) if P.upper else P.origin), P.qtype, 1)
+                for rr in m["rrs"]:
+                    r.add_rrset(dns.renderer.ANSWER, P.ctx.rrset(rr))
+                r.write_header()  # before signing: the MAC covers the header (as Message.to_wire does)
+                if sign:
+                    tctx = r.add_multi_tsig(tctx, key.name, key, 300, QID, 0, b"", request_mac, key.algorithm)
+                w = r.get_wire()
+                if not sign and tctx is not None:
+                    tctx.update(w)
+                out.append(w)
+            return out
+
+        if not last_signed and verdict.ok and verdict.changed and EXCLUDE_D12B:
+            classes.append("excluded:D12b")
+            return {"nontrivial": False, "classes": classes}
+        for flavour in P.flavours:
+            kind, relativize, items, q, s, want_t = flavour
+            zone = _build_zone(P.ctx, kind, relativize, items)
+            before = ZU.extract(zone)
+            vbefore = _version_ids(zone)
+            exc, consumed = _drive_real(zone, q, s, P.is_udp, make_wires)
+            if last_signed:
+                _judge(P, verdict, None, flavour, zone, before, vbefore, exc, consumed, None, mm, " (TSIG-signed, real _inbound_xfr)")
+                classes.append("signed_transfer_checked")
+                continue
+            # the last message carries no TSIG: RFC 8945 5.3.1 wants the transfer refused
+            where = f"style {P.style}, zone {kind}/{'relativized' if relativize else 'absolute'}, sign mask {mask}"
+            after = ZU.extract(zone)
+            if exc is None:
+                raise Violation("missed-reject", f"{where}: the last message is unsigned but the transfer completed without error", "unsigned-last")
+            if after != before or _version_ids(zone) != vbefore:
+                raise Violation(
+                    "atomicity",
+                    f"{where}: {type(exc).__name__}({exc}) was raised but the zone changed: {ZU.diff(before, after)}",
+                    exc_key(exc) if last_frame_in_dns(exc) else type(exc).__name__,
+                )
+            if getattr(zone, "_write_txn", None) is not None:
+                raise Violation("txn-leak", f"{where}: write transaction left open", "write_txn")
+            classes.append("last_unsigned_refused")
+    return {"nontrivial": P.valid and P.multi and last_signed, "classes": classes}
 
 
 # ---------------------------------------------------------------------------
@@ -1198,6 +1437,16 @@ def transfer_cases(draw, tier):
     }
 
 
+@st.composite
+def signed_cases(draw, tier):
+    case = draw(transfer_cases(tier))
+    case["sign_mid"] = draw(st.lists(st.booleans(), min_size=1, max_size=4))
+    case["sign_last"] = _pick(draw, 3) != 0
+    if tier != "thorough":
+        case["zones"] = case["zones"][:1]
+    return case
+
+
 def parts(tier):
     req = {
         "__nontrivial__": 20,
@@ -1242,6 +1491,14 @@ def parts(tier):
             "transfer", run, strategy=transfer_cases(tier),
             n={"quick": 480, "thorough": 4800}, require=req, case_timeout_s=120.0,
             shards={"quick": 16, "thorough": 16},
+        ),
+        Part(
+            "signed", run_signed, strategy=signed_cases(tier),
+            n={"quick": 320, "thorough": 3200},
+            require={
+                "signed_transfer_checked": 100, "unsigned_middle": 20, "multi_message": 50,
+                ("excluded:D12b" if EXCLUDE_D12B else "last_unsigned_refused"): 20,
+            },
         ),
         Part("query", run_query, strategy=query_cases(), n={"quick": 800, "thorough": 8000}, require=qreq),
     ]
